@@ -510,6 +510,25 @@ class Extractor {
         J.num(S(Mangle(CO)));
         EmitFunction(CO);
       }
+      // generic lambda: the call operator is a template; its instantiations are separate functions
+      if (const auto* RD = LE->getLambdaClass()) {
+        if (const auto* FT = RD->getDependentLambdaCallOperator()) {
+          J.raw(",\"lams\":[");
+          bool first = true;
+          for (const FunctionDecl* Sp : FT->specializations()) {
+            if (!Sp->doesThisDeclarationHaveABody()) {
+              continue;
+            }
+            if (!first) {
+              J.raw(",");
+            }
+            first = false;
+            J.num(S(Mangle(Sp)));
+            EmitFunction(Sp);
+          }
+          J.raw("]");
+        }
+      }
     } else if (const auto* IS = dyn_cast<IfStmt>(St)) {
       if (IS->isConstexpr()) {
         J.raw(",\"cexpr\":1");
